@@ -80,6 +80,7 @@ package sender
 //@   ensures !isSkipDir(err)
 //@ extern (sender.FileSource).Readlink params s, name
 //@   effect srcread(data(s))
+//@   ensures err == nil ==> result == linkTargetOf(data(s), name)
 //@   ensures !isSkipDir(err)
 //@ extern (sender.FileSource).FS params s
 //@   ensures isSourceFS(fsOf(data(result)))
@@ -292,3 +293,42 @@ package sender
 //@ spec func sortedByWpath(l: []sender.file): bool = forall i, j :: 0 <= i && i < j && j < len(l) ==> !strlt(l[j].Wpath, l[i].Wpath)
 //@ func (*sender.Transfer).SendFiles
 //@   requires[C01] [file-list-sorted-by-wire-name] sortedByWpath(fileList.Files)
+
+// ---------------------------------------------------------------- C15 / C14: file-list entry as sent
+// The entry is assembled in s.fec and sent with one write. Its token
+// sequence, in protocol-27 field order: flags byte, name length (32 bit: only
+// long names are sent), name, file length (32 or 64 bit form), mtime, mode,
+// then the optional fields under the very conditions the receiver decodes
+// them under (receiver: rdevOnWire, mdIsLink): uid (-o), gid (-g), device
+// number, symlink target (-l), whole-file checksum (-c).
+//@ spec func infoRdev(fi: int): int
+//@ spec func linkTargetOf(src: int, name: Str): Str
+//@ func sender.uidFromFileInfo
+//@   trusted
+//@   pure
+//@   ensures result == infoUid(data(info))
+//@ func sender.gidFromFileInfo
+//@   trusted
+//@   pure
+//@   ensures result == infoGid(data(info))
+//@ func sender.rdevFromFileInfo
+//@   trusted
+//@   pure
+//@   ensures result == infoRdev(data(info))
+//@ spec func entryHead(flags: int, name: Str): int = accApp(accApp(accApp(accEmpty, valEnc(typeid("uint8"), flags)), valEnc(typeid("int32"), wrap32s(len(name)))), strTok(name))
+//@ spec func entryLen(a: int, size: int): int = ite(0 <= size && size <= 2147483647, accApp(a, valEnc(typeid("int32"), size)), accApp(accApp(a, valEnc(typeid("int32"), -1)), valEnc(typeid("int64"), size)))
+//@ spec func appIf(c: bool, a: int, tok: int): int = ite(c, accApp(a, tok), a)
+//@ spec func entryFixed(flags: int, name: Str, size: int, mtime: int, mode: int): int = accApp(accApp(entryLen(entryHead(flags, name), size), valEnc(typeid("int32"), mtime)), valEnc(typeid("int32"), mode))
+//@ spec func entryIds(a: int, uidOn: bool, uid: int, gidOn: bool, gid: int): int = appIf(gidOn, appIf(uidOn, a, valEnc(typeid("int32"), uid)), valEnc(typeid("int32"), gid))
+//@ spec func entryRdev(a: int, devOn: bool, specOn: bool, mode: int, rdev: int): int = appIf(rdevOnWire(devOn, specOn, mode), a, valEnc(typeid("int32"), rdev))
+//@ spec func entryLink(a: int, linksOn: bool, mode: int, target: Str): int = ite(linksOn && mdIsLink(mode), accApp(accApp(a, valEnc(typeid("int32"), wrap32s(len(target)))), strTok(target)), a)
+//@ spec func entryUpToLink(s: *sender.scopedWalker, flags: int, name: Str, size: int, info: int, mode: int, path: Str): int = entryLink(entryRdev(entryIds(entryFixed(flags, name, size, wrap32s(infoMSec(info)), mode), s.st.Opts.preserve_uid != 0, infoUid(info), s.st.Opts.preserve_gid != 0, infoGid(info)), s.st.Opts.preserve_devices != 0, s.st.Opts.preserve_specials != 0, mode, infoRdev(info)), s.st.Opts.preserve_links != 0, mode, linkTargetOf(data(s.source), path))
+//@ func (*sender.scopedWalker).walkFn
+//@   at[C15,C14] (*rsyncwire.Buffer).WriteInt32@4: assert [uid-only-under-o] s.st.Opts.preserve_uid != 0 && select(ghost.bufacc, addr(s.fec.buf)) == entryFixed(flags, name, size, wrap32s(infoMSec(data(info))), mode)
+//@   at[C15,C14] (*rsyncwire.Buffer).WriteInt32@5: assert [gid-only-under-g] s.st.Opts.preserve_gid != 0 && select(ghost.bufacc, addr(s.fec.buf)) == entryIds(entryFixed(flags, name, size, wrap32s(infoMSec(data(info))), mode), s.st.Opts.preserve_uid != 0, infoUid(data(info)), false, 0)
+//@   at[C15,C14] (*rsyncwire.Buffer).WriteInt32@6: assert [rdev-exactly-when-receiver-expects-it] rdevOnWire(s.st.Opts.preserve_devices != 0, s.st.Opts.preserve_specials != 0, mode)
+//@   at[C15,C14] (*rsyncwire.Buffer).WriteInt32@7: assert [link-target-exactly-when-receiver-expects-it] s.st.Opts.preserve_links != 0 && mdIsLink(mode)
+//@   at[C15,C14] (*rsyncwire.Buffer).WriteString@3: assert [entry-up-to-link] s.st.Opts.always_checksum != 0 && select(ghost.bufacc, addr(s.fec.buf)) == entryUpToLink(s, flags, name, size, data(info), mode, path)
+//@   at[C15,C14] (*rsyncwire.Conn).WriteString: assert [entry-as-protocol-27] s.st.Opts.always_checksum == 0 ==> select(ghost.bufacc, addr(s.fec.buf)) == entryUpToLink(s, flags, name, size, data(info), mode, path)
+//@   at[C15] (*rsyncwire.Buffer).WriteInt64: assert [head-then-length] select(ghost.bufacc, addr(s.fec.buf)) == entryHead(flags, name) && flags == 64 + ite(path == ".", 1, 0)
+//@   at[C15] (*rsyncwire.Buffer).WriteInt32@3: assert [then-mode] select(ghost.bufacc, addr(s.fec.buf)) == accApp(entryLen(entryHead(flags, name), size), valEnc(typeid("int32"), wrap32s(infoMSec(data(info)))))
